@@ -290,30 +290,39 @@ Qed.
 Lemma off_roundtrip tz : valid_off tz = true -> parse_off (off_iso tz) = Some tz.
 Proof.
   destruct tz as [o|]; [|reflexivity]. cbn [valid_off]. intros Hv.
-  apply andb_prop in Hv. destruct Hv as [Hv H60]. apply andb_prop in Hv. destruct Hv as [Hlo Hhi].
-  apply Z.ltb_lt in Hlo. apply Z.ltb_lt in Hhi. apply Z.eqb_eq in H60.
+  apply andb_prop in Hv. destruct Hv as [Hlo Hhi].
+  apply Z.ltb_lt in Hlo. apply Z.ltb_lt in Hhi.
   set (a := Z.abs o). assert (Ha : 0 <= a < 86400) by (subst a; lia).
   assert (Hq : 0 <= a / 3600 < 24) by (split; [apply Z.div_pos; lia | apply Z.div_lt_upper_bound; lia]).
   assert (Hr : 0 <= a mod 3600 / 60 < 60).
   { pose proof (Z.mod_pos_bound a 3600 ltac:(lia)). split; [apply Z.div_pos; lia | apply Z.div_lt_upper_bound; lia]. }
-  assert (Hsum : a / 3600 * 3600 + a mod 3600 / 60 * 60 = a).
-  { assert (Ha60 : a mod 60 = 0).
-    { subst a. destruct (Z.abs_spec o) as [[_ ->]|[_ ->]]; [exact H60|].
-      apply Z.mod_opp_l_z; [lia | exact H60]. }
-    clear - Ha60 Ha. Z.div_mod_to_equations. lia. }
-  unfold off_iso, parse_off. fold a. rewrite !to_dec2.
-  cbn [app length Nat.eqb nth firstn skipn]. rewrite Z.eqb_refl.
+  assert (Hs : 0 <= a mod 60 < 60) by (apply Z.mod_pos_bound; lia).
+  assert (Hsum : a / 3600 * 3600 + a mod 3600 / 60 * 60 + a mod 60 = a).
+  { clear - Ha. Z.div_mod_to_equations. lia. }
   assert (Hsg : (((if o <? 0 then dash else plus) =? plus) || ((if o <? 0 then dash else plus) =? dash)) = true) by (destruct (o <? 0); reflexivity).
-  rewrite Hsg. cbn [andb]. rewrite <- !to_dec2.
-  rewrite (of_to_dec 2 (a / 3600) 0) by (change (10 ^ Z.of_nat 2) with 100; lia).
-  rewrite (of_to_dec 2 (a mod 3600 / 60) 0) by (change (10 ^ Z.of_nat 2) with 100; lia).
-  cbn [Z.mul Z.add].
-  replace (a / 3600 <? 24) with true by (symmetry; apply Z.ltb_lt; lia).
-  replace (a mod 3600 / 60 <? 60) with true by (symmetry; apply Z.ltb_lt; lia). cbn [andb].
-  f_equal. f_equal. rewrite Hsum. subst a.
-  destruct (o <? 0) eqn:Eo; [apply Z.ltb_lt in Eo | apply Z.ltb_ge in Eo].
-  - change (dash =? dash) with true. cbv iota. lia.
-  - change (plus =? dash) with false. cbv iota. lia.
+  assert (Hsign : (if (if o <? 0 then dash else plus) =? dash then -1 else 1) * a = o).
+  { subst a. destruct (o <? 0) eqn:Eo; [apply Z.ltb_lt in Eo | apply Z.ltb_ge in Eo].
+    - change (dash =? dash) with true. cbv iota. lia.
+    - change (plus =? dash) with false. cbv iota. lia. }
+  unfold off_iso, parse_off. fold a. rewrite !to_dec2.
+  destruct (a mod 60 =? 0) eqn:E60.
+  - apply Z.eqb_eq in E60.
+    cbn [app length Nat.eqb nth firstn skipn]. rewrite Z.eqb_refl, Hsg. cbn [andb]. rewrite <- !to_dec2.
+    rewrite (of_to_dec 2 (a / 3600) 0) by (change (10 ^ Z.of_nat 2) with 100; lia).
+    rewrite (of_to_dec 2 (a mod 3600 / 60) 0) by (change (10 ^ Z.of_nat 2) with 100; lia).
+    cbn [Z.mul Z.add].
+    replace (a / 3600 <? 24) with true by (symmetry; apply Z.ltb_lt; lia).
+    replace (a mod 3600 / 60 <? 60) with true by (symmetry; apply Z.ltb_lt; lia). cbn [andb].
+    f_equal. f_equal. rewrite <- Hsign at 2. f_equal. lia.
+  - cbn [app length Nat.eqb nth firstn skipn]. rewrite !Z.eqb_refl, Hsg. cbn [andb]. rewrite <- !to_dec2.
+    rewrite (of_to_dec 2 (a / 3600) 0) by (change (10 ^ Z.of_nat 2) with 100; lia).
+    rewrite (of_to_dec 2 (a mod 3600 / 60) 0) by (change (10 ^ Z.of_nat 2) with 100; lia).
+    rewrite (of_to_dec 2 (a mod 60) 0) by (change (10 ^ Z.of_nat 2) with 100; lia).
+    cbn [Z.mul Z.add].
+    replace (a / 3600 <? 24) with true by (symmetry; apply Z.ltb_lt; lia).
+    replace (a mod 3600 / 60 <? 60) with true by (symmetry; apply Z.ltb_lt; lia).
+    replace (a mod 60 <? 60) with true by (symmetry; apply Z.ltb_lt; lia). cbn [andb].
+    f_equal. f_equal. rewrite <- Hsign at 2. f_equal. lia.
 Qed.
 
 Lemma date_iso_split y m d X :
